@@ -1,5 +1,5 @@
 (* Model of:
-     vrp-core/src/models/solution/tour.rs :: Tour::{new, insert_at, insert_last, remove, remove_activity_at, legs,
+     vrp-core/src/models/solution/tour.rs :: Tour::{new, insert_at, insert_last, remove, remove_activity_at, legs, index, index_last, job_activities, contains,
                                                    jobs, start, end, job_activity_count, total, job_count, has_jobs, deep_copy}
      vrp-core/src/models/solution/route.rs :: Activity::{has_same_job, retrieve_job} (as the job id of an activity), Route::deep_copy
      vrp-core/src/models/solution/registry.rs :: Registry::{new, use_actor, free_actor, available, all, next, deep_copy, deep_slice}
@@ -127,12 +127,37 @@ Fixpoint trun (t : tour) (ops : list top) : option tour :=
   | o :: r => match tstep t o with Some (t', _) => trun t' r | None => None end
   end.
 
+(* read-only accessors built on has_same_job / the job set *)
+Fixpoint find_idx (f : act -> bool) (i : nat) (l : list act) : option nat :=
+  match l with
+  | [] => None
+  | a :: r => if f a then Some i else find_idx f (S i) r
+  end.
+Fixpoint find_last (f : act -> bool) (i : nat) (l : list act) (acc : option nat) : option nat :=
+  match l with
+  | [] => acc
+  | a :: r => find_last f (S i) r (if f a then Some i else acc)
+  end.
+Definition tindex (t : tour) (j : nat) : option nat := find_idx (fun a => has_same_job a j) 0 (t_acts t).
+Definition tindex_last (t : tour) (j : nat) : option nat := find_last (fun a => has_same_job a j) 0 (t_acts t) None.
+Definition job_activities (t : tour) (j : nat) : list act := filter (fun a => has_same_job a j) (t_acts t).
+Definition contains (t : tour) (j : nat) : bool := set_mem j (t_jobs t).
+Definition enc_opt (o : option nat) : nat := match o with None => 0 | Some i => S i end.
+Definition tquery (t : tour) (what j : nat) : nat :=
+  match what with
+  | 0 => enc_opt (tindex t j)
+  | 1 => enc_opt (tindex_last t j)
+  | 2 => length (job_activities t j)
+  | _ => if contains t j then 1 else 0
+  end.
+
 (* ---- slots: several route contexts (tour + one tour-state value), deep copies push a new slot *)
 Record slot := mkSlot { s_tour : tour; s_state : option nat }.
 Inductive sop :=
 | STour (k : nat) (o : top)
 | SCopy (k : nat) (mode : nat)       (* 0: Tour::deep_copy, 1: Route::deep_copy (both: fresh RouteState), 2: RouteContext::deep_copy *)
-| SSetState (k : nat) (v : nat).
+| SSetState (k : nat) (v : nat)
+| SQuery (k : nat) (what : nat) (j : nat).   (* 0: index(job), 1: index_last(job), 2: job_activities(job).count(), 3: contains(job) *)
 
 Fixpoint set_nth {A} (k : nat) (x : A) (l : list A) : list A :=
   match l, k with
@@ -160,6 +185,11 @@ Definition sstep (ss : list slot) (o : sop) : option (list slot * nat * nat) :=
   | SSetState k v =>
       match nth_error ss k with
       | Some s => Some (set_nth k (mkSlot (s_tour s) (Some v)) ss, 0, k)
+      | None => None
+      end
+  | SQuery k what j =>
+      match nth_error ss k with
+      | Some s => Some (ss, tquery (s_tour s) what j, k)
       | None => None
       end
   end.
